@@ -59,6 +59,7 @@ var optWriterOps = map[string]string{
 
 func checkC03(c *Ctx) {
 	r := c.R
+	r.Rule("R17.5", "(shared with C17) routed to the error device exactly if so requested: each setting of the registration pack is written by one option constructor only")
 	r.Rule("R10.1", "(shared with C10) a logger's writer set is its own: a child starts without one (package defaults until configured) and never shares its parent's set or its per-level map")
 	r.Rule("R08.1", "(shared with C08) told immediately before each Write: the sink keeps no per-logger memory of what it told a destination (no store to a logger field on the logging path)")
 	r.Rule("R03.1", "routing decision: the decision function extracted from dualWriter.Get over {lvl==Off, leveled!=nil, leveled[lvl] present, non-empty, lvl in error-device table} equals the documented routing (Off -> discard; a non-empty per-level list for exactly lvl takes precedence; error-class -> Error list; else Normal list); the error-device table initially holds exactly Panic, Fatal, Error, Warn, Fail; the table's reader and writers agree on presence vs value")
@@ -83,6 +84,8 @@ func checkC03(c *Ctx) {
 		c03Routing(c, p, m)
 		c03Frames(c, p, m)
 		addOpsUnconditional(c, p, m)
+		recordLevelWrittenOnce(c, p, m, "R03.2")
+		regOptsIndependent(c, p)
 		writerSetNilSafe(c, p, m, "R03.4")
 		c03Wrappers(c, p, m)
 		c03AddRemove(c, p, m)
